@@ -16,14 +16,17 @@ LEVEL_TEXT = ("Theorems (Lean 4, all line lists, every model configuration = ios
               "parse_sizes: the result has one parent and one keep flag per text line (lines are numbered by position, so line i is number i); "
               "parse_commit_idempotent: the second bootstrap done by commit() reproduces the first; "
               "parse_texts_ignore_blank: the result texts are a sub-list of the input, their non-blank lines are exactly the non-blank lines "
-              "of the input (no non-blank line is dropped), and with ignore_blank_lines the result is a fixed point of passes 1-3 + blank filter "
-              "(len(input) restart rounds suffice); parse_drops_only_blank. The model cannot raise (parse is a total function, no error result). "
+              "of the input, and with ignore_blank_lines the result is a fixed point of passes 1-3 + blank filter; parse_drops_only_blank; "
+              "parse_texts_eq_keepSpec: with ignore_blank_lines the result texts are exactly the input lines at the positions j with keepSpec j = "
+              "'non-blank, or within the stretch protected by a banner start (up to the first following line containing the delimiter) or an "
+              "ios macro start (up to and including the first @ line) at some position <= j' -- a specification written without the passes "
+              "(Spec/BlankKeep.lean; inBody_spec states its reading); parse_single_round: the restart loop never needs a second filtering round. "
+              "The model cannot raise (parse is a total function, no error result). "
               "Model tied to CiscoConfParse by differential runs on generated configs and the vendor fixtures.")
-LEVEL_NOTE = ("Trusted: Lean kernel, standard axioms, the harness. NOT proved: the design's closed form texts = input.filter(keepSpec) with "
-              "keepSpec = 'non-blank or inside a banner/macro body' stated independently of the passes -- which blank lines survive is modelled "
-              "(blank_line_keep set by the banner/macro walks) and checked by the correspondence only. Modelled not verified: the two banner "
-              "regexes (hand-written scanners), \\w restricted to code points < 256, typed-model factory as 'may reject a line' (its acceptance "
-              "is not modelled; a factory parse that returns is compared like any other).")
+LEVEL_NOTE = ("Trusted: Lean kernel, standard axioms, the harness. Modelled not verified: the two banner "
+              "regexes (hand-written scanners; the specification keepSpec uses the same per-line recognisers), \\w restricted to code points < 256, "
+              "typed-model factory as 'may reject a line' (its acceptance is not modelled, so the design's parse_factory_lossless is covered by the "
+              "correspondence only; a factory parse that returns is compared like any other).")
 ASSUMPTIONS = ["no lone surrogates in line texts", "ignore_blank_lines together with factory is outside the constructor's domain"]
 TRUSTED = ["hand-written scanners for the banner start / delimiter regexes"]
 EXHAUSTIVE = {"quick": False, "thorough": False}
